@@ -128,14 +128,9 @@ Proof.
   cbn [app otoks_of map lastopt fold_left]. f_equal. apply IH.
 Qed.
 
-(* the same, computed from the lines as written: a token is on a new line iff its predecessor in the
-   group was followed by a line break, and NextArg reaches it iff it is not *)
-Fixpoint flags_from (prev : option bool) (l : list (bytes * bool)) : list (bytes * (bool * bool)) :=
-  match l with
-  | [] => []
-  | x :: r => (fst x, match prev with None => (false, false) | Some p => (p, negb p) end)
-              :: flags_from (Some (snd x)) r
-  end.
+(* the same, computed from the lines as written (C09_Model.flags_from): a token is on a new line iff
+   its predecessor in the group was followed by a line break, and NextArg reaches it iff it is not *)
+Notation flags_from := C09_Model.flags_from.
 Definition lastflag (prev : option bool) (l : list (bytes * bool)) : option bool :=
   fold_left (fun _ x => Some (snd x)) l prev.
 Lemma flags_from_app : forall a prev b,
@@ -189,7 +184,7 @@ Proof.
   repeat split; assumption.
 Qed.
 
-Definition ev (t : ltok) : bytes * bool := (renv env (fst t), snd t).
+Notation ev := (C09_Model.ev env).
 
 Lemma toks_from_cons f ln t r : toks_from f ln (t :: r) = mk_tok f ln t :: toks_from f (adv ln t) r.
 Proof. reflexivity. Qed.
@@ -211,9 +206,8 @@ Proof.
 Qed.
 
 (* a line of the AST, without line numbers: name and (text, followed-by-line-break) per token *)
-Definition aline := (ltok * list ltok)%type.
-Definition lview (l : aline) : @C09_Model.line (bytes * bool) :=
-  (renv env (fst (fst l)), (fst (fst l), snd (fst l)) :: map ev (snd l)).
+Notation aline := (ltok * list ltok)%type.
+Notation lview := (C09_Model.lview env).
 Definition annot_line (f : N) (ln : Z) (l : aline) : dline :=
   (mk_tok f ln (fst l), toks_from f (adv ln (fst l)) (snd l)).
 
@@ -237,8 +231,8 @@ Qed.
 
 Lemma lastflag_lview prev (l : aline) : lastflag prev (snd (lview l)) = Some (lastb (snd (fst l)) (snd l)).
 Proof.
-  destruct l as [h rest]. unfold lview, lastflag, lastb. cbn [fst snd fold_left].
-  generalize (snd h). induction rest as [|x r IH]; intro b; [reflexivity|]. cbn [map fold_left ev snd]. apply IH.
+  destruct l as [[ht hb] rest]. unfold C09_Model.lview, lastflag, lastb. cbn [fst snd map fold_left].
+  generalize hb. induction rest as [|x r IH]; intro b; [reflexivity|]. cbn [map fold_left C09_Model.ev snd]. apply IH.
 Qed.
 
 Lemma lastopt_some {A} (l : list A) prev : l <> [] -> exists x, lastopt prev l = Some x.
@@ -346,6 +340,8 @@ Proof.
     exact (proj1 (inv_flags f _ true _ (mk_tok f (end_line ln (a_line_flat l)) (fst l2)) Hinv eq_refl eq_refl eq_refl)).
 Qed.
 End Views.
+Notation aline := (ltok * list ltok)%type.
+Notation lview := C09_Model.lview.
 
 (* ================= 3. admissible reorderings of a block's lines, on the printed text ================= *)
 Definition w1 (t : ltok) : Z := (count_nl (fst t) + (if snd t then 1 else 0))%Z.
@@ -402,7 +398,7 @@ Lemma text_adm_c09 ls ls' : text_admissible ls ls' ->
 Proof.
   intros [HP HF]. split; [apply Permutation_map; exact HP|]. intro d.
   unfold C09_Model.lines_of. rewrite !filter_map_comm.
-  change (fun x : aline => C09_Model.is_dir d (lview env x)) with (is_named d). rewrite HF. reflexivity.
+  f_equal. exact (HF d).
 Qed.
 
 Lemma text_adm_swap l1 (a b : aline) l2 : renv env (fst (fst a)) <> renv env (fst (fst b)) ->
@@ -508,3 +504,30 @@ Proof.
   - intro d. apply Hview. exact Hal.
 Qed.
 End Reorder.
+
+(* ================= 4. the printer and flattening used by the correspondence check are C10's ================= *)
+Lemma tquote_is_quote t : C09_Model.tquote t = quote_text t.
+Proof.
+  unfold C09_Model.tquote, quote_text. change 34 with QUOTE. f_equal. f_equal.
+  induction t as [|c r IH]; [reflexivity|]. cbn [flat_map esc]. rewrite IH.
+  change 34 with QUOTE. change 92 with BSL. destruct (c =? QUOTE); reflexivity.
+Qed.
+Lemma tprint_is_print : forall ts, C09_Model.tprint ts = print ts.
+Proof.
+  induction ts as [|[t nl] r IH]; [reflexivity|]. cbn [C09_Model.tprint print fst snd].
+  rewrite tquote_is_quote, IH. unfold sep_of. change 10 with NL. reflexivity.
+Qed.
+Definition to_ablock (b : C09_Model.ablockT) : ablock := mkb (fst (fst b)) (snd (fst b)) (snd b).
+Lemma tflat_is_a_flat b : C09_Model.tflat b = a_flat (to_ablock b).
+Proof. destruct b as [[k ks] ls]. reflexivity. Qed.
+Lemma tflat_all_is_a_flat_all bs : C09_Model.tflat_all bs = a_flat_all (map to_ablock bs).
+Proof.
+  unfold C09_Model.tflat_all, a_flat_all. induction bs as [|b r IH]; [reflexivity|].
+  cbn [map concat]. rewrite tflat_is_a_flat, IH. reflexivity.
+Qed.
+(* the text the judge of the text cases compares with the harness's text is the printed AST of
+   text_reorder_invariant *)
+Theorem judge_text_is_printed_ast pre post key keys ls :
+  C09_Model.tprint (C09_Model.tflat_all (pre ++ (key, keys, ls) :: post)) =
+  print (a_flat_all (map to_ablock pre ++ mkb key keys ls :: map to_ablock post)).
+Proof. rewrite tprint_is_print, tflat_all_is_a_flat_all, map_app. reflexivity. Qed.
